@@ -328,6 +328,13 @@ func genSynth(prog *idl.Program, rng *rand.Rand, tc typeCase) *idl.AV {
 	av := &idl.AV{Kind: "struct", St: tc.st, StFile: tc.file, Fields: map[int]*idl.AV{}}
 	if tc.kind == "args" {
 		for _, fl := range tc.st.Fields {
+			if fl.Default != nil && rng.Intn(3) == 0 {
+				// the caller passes exactly the declared default: it travels like any other value
+				if d := prog.AVFromLiteral(tc.file, fl.Type, fl.Default); d != nil {
+					av.Fields[fl.ID] = d
+					continue
+				}
+			}
 			av.Fields[fl.ID] = prog.GenValue(rng, tc.file, fl.Type, 1)
 		}
 		return av
